@@ -65,6 +65,10 @@ BODIES = [
     ("closure_two", 1, ["return (K - J, recurse(x - K)) if x >= K else call_next(x + J)"]),
     ("kwonly_order", "kw", ["if x > 0:", "    return recurse(x - 1, b=tick(('b', x)), a=tick(('a', x)))", "return call_next(x, b=tick('nb'), a=tick('na'))"]),
     ("recurse_and_self", 1, ["if x > 1:", "    return (recurse(x - 1), F(x - 2))", "return call_next(x)"]),
+    ("raises_at_site", 1, ["v = call_next(x)", "if x == 2:", "    return recurse(x, x)", "", "", "if x == 3:", "    return (v,", "            call_next(x, v))", "return v"]),
+    ("self_then_recurse", 1, ["if x > 1:", "    return (F(x - 2), recurse(x - 1))", "return call_next(x)"]),
+    ("first_class_value", 1, ["return list(map(recurse, range(x))) + [call_next(x)]"]),
+    ("star_arguments", 1, ["if x > 0:", "    return ('A', recurse(*[x - 1]))", "return call_next(x)"]),
     ("two_pos_mixed", 2, ["if y > 0:", "    return recurse(x, y - 1)", "return call_next(y, x)"]),
 ]
 
